@@ -2,7 +2,10 @@
 from vlib.framework import PUnit, LUnit, BUnit
 from bounded import b_top as B
 
-P_UNITS = []
+from contracts import top_finalize as TF
+
+P_UNITS = [PUnit("molecules-section-expansion", TF.CONTRACTS, TF.REG),
+           LUnit("molecule-count-prefix-sum", TF.lemma_ps_monotone)]
 
 
 def build(tier, seed):
